@@ -9,7 +9,7 @@ theorem ac_generate_arpc_1 (sk q rc : Bytes) : Gen.ac.generate_arpc_1 sk q rc = 
   unfold Gen.ac.generate_arpc_1 generateArpc1
   simp only [tools_xor, rep_flatten, zeros, tools_cbc, bind, Except.bind, pure, Except.pure]
   repeat (first | rfl | split)
-  all_goals simp_all
+  all_goals first | (simp_all; done) | slice_forms
 
 /-- **C02 (method 1) about the translated source** -/
 theorem source_generate_arpc_1 (sk arqc rc : Bytes) (hsk : sk.length = 16) (hq : arqc.length = 8) (hrc : rc.length = 2) :
